@@ -622,6 +622,8 @@ pub fn h_list_hist3(inp: &Inp) -> u8 {
     if r1.validate_op(&op1).is_err() {
         return 0;
     }
+    vtrace!("op0 by actor {}: {:?}", a0, op0);
+    vtrace!("op1 by actor {} (saw op0: {}): {:?}", a1, saw, op1);
     r1.apply(op1.clone());
     if v == 0 {
         // a replica that has seen nothing accepts op1 iff it is its actor's first op
@@ -702,6 +704,7 @@ pub fn h_list_hist3(inp: &Inp) -> u8 {
         return 0;
     }
     let lag = t.clone();
+    vtrace!("op2 by actor {} on the converged replica {:?}: {:?}", a2, st.0, op2);
     t.apply(op2.clone());
     if v == 3 {
         let st2 = seq(&t);
@@ -790,6 +793,10 @@ pub fn h_list_conc_del(inp: &Inp) -> u8 {
         return 0;
     }
     r2.apply(op3.clone());
+    vtrace!("op0 {:?}", op0);
+    vtrace!("op1 (delete by actor {}) {:?}", a1, op1);
+    vtrace!("op2 (delete by actor {}) {:?}", a2, op2);
+    vtrace!("op3 (insert by actor {}) {:?}", a2, op3);
     // replica T receives a1's delete first, T2 a2's ops first
     let mut t = r0.clone();
     if t.validate_op(&op1).is_err() {
